@@ -22,6 +22,7 @@ def identity_member(desc, tier, seed):
     g = b.dsg
     wit = ['graph-api', 'copy']
     nt = (desc.label,)
+    same_display_names = any('#' in d.name for d in desc.dvs)
     h0, f0 = hash(g), g.fingerprint()
     try:
         snapshot = pickle.dumps(g)
@@ -127,6 +128,8 @@ def identity_member(desc, tier, seed):
     except Exception as e:  # noqa
         ctx.check('C18.pickle-graph-is-same', False, ['graph-api', 'pickle'], f'{type(e).__name__}: {e}', (desc.label, 'pickle'))
     try:
+        if same_display_names:
+            raise RuntimeError('unpickled nodes are re-bound to the description by name: ambiguous here')
         bb, gp = make_processor(desc, 'COMPLETE')
         gp2 = pickle.loads(pickle.dumps(gp))
         from .enumchecks import _rebind
@@ -179,7 +182,7 @@ def identity_member(desc, tier, seed):
         n_edges = len({frozenset((u, v)) for u, v in g.graph.edges()})   # DOT export draws one arrow per node pair
         ctx.check('C18.dot-contains-every-edge', dot.count('->') + dot.count(' -- ') >= n_edges, ['graph-api', 'dot'],
                   f'{dot.count("->")} arrows for {n_edges} edges', (desc.label, 'dot'))
-        missing = [nm for nm, nd in b.node.items() if nd in g.graph.nodes and nm not in dot]
+        missing = [nm for nm, nd in b.node.items() if nd in g.graph.nodes and nm.split('#')[0] not in dot]   # 'x#2' is displayed as 'x'
         ctx.check('C18.dot-contains-every-node', not missing, ['graph-api', 'dot'], f'node names missing in DOT: {missing[:5]}', (desc.label, 'dot-n'))
     except Exception as e:  # noqa
         ctx.check('C18.dot-export-total', False, ['graph-api', 'dot'], f'{type(e).__name__}: {e}', (desc.label, 'dot'))
@@ -271,7 +274,11 @@ def sup_member(desc, tier, seed):
     if not src_choices:
         return ctx.result()
 
-    def build_sup(drop_none=False, duplicate=False, unmapped=False):
+    def build_sup(drop_none=False, duplicate=False, unmapped=False, by_value=False):
+        # by_value: mappings name their target options through NEW SupNode objects with the same name and reference
+        # (documented to be recognised as the same node)
+        def tgt(node):
+            return SupNode(node.name, ref=node.ref) if by_value else node
         sup = SupDSG()
         root = SupNode('root')
         spec = {}
@@ -283,7 +290,7 @@ def sup_member(desc, tier, seed):
             so = {o: SupNode(f'{c.cid}_{o}') for o in opts}
             s_inactive = SupNode(f'{c.cid}_inactive')
             sc = sup.add_selection_choice(f'sup_{c.cid}', sn, list(so.values()) + [s_inactive])
-            mapping = {b.node[o]: so[o] for o in opts}
+            mapping = {b.node[o]: tgt(so[o]) for o in opts}
             conditional = c.origin not in perm_nodes
             # a `None` entry is also given when the library itself counts the choice as possibly inactive (it may
             # still offer an option that the reference excludes, see the known finding on self-conflicting options):
@@ -294,7 +301,7 @@ def sup_member(desc, tier, seed):
             except Exception:  # noqa
                 pass
             if (conditional and not drop_none) or (lib_conditional and not conditional):
-                mapping[None] = s_inactive
+                mapping[None] = tgt(s_inactive)
             elif not conditional:
                 pass
             maps.append((sc, SupSelChoiceOptionMapping(b.choice[c.cid], mapping)))
@@ -310,8 +317,8 @@ def sup_member(desc, tier, seed):
         eo = {n: SupNode(f'ex_{n}') for n in cands}
         e_none = SupNode('ex_none')
         ec = sup.add_selection_choice('sup_exist', en, list(eo.values()) + [e_none])
-        emap = {b.node[n]: eo[n] for n in cands}
-        emap[None] = e_none
+        emap = {b.node[n]: tgt(eo[n]) for n in cands}
+        emap[None] = tgt(e_none)
         maps.append((ec, SupExistenceMapping(emap)))
         # nested supplementary choice below the first option of the first supplementary choice
         c0 = src_choices[0]
@@ -322,7 +329,7 @@ def sup_member(desc, tier, seed):
         lopts = [b.name_of[o] for o in src.get_option_nodes(b.choice[last.cid])]
         nmap = {b.node[o]: (n1 if i % 2 == 0 else n2) for i, o in enumerate(lopts)}
         nmap[None] = n2
-        maps.append((nc, SupSelChoiceOptionMapping(b.choice[last.cid], dict(nmap))))
+        maps.append((nc, SupSelChoiceOptionMapping(b.choice[last.cid], {k_: tgt(v_) for k_, v_ in nmap.items()})))
         if unmapped:
             sup.add_selection_choice('sup_unmapped', root, [SupNode('u1'), SupNode('u2')])
         for sc, m in maps:
@@ -384,15 +391,20 @@ def sup_member(desc, tier, seed):
                 return g
             g = g.get_for_apply_selection_choice(nxt[0], b.node[a[str(nxt[0].decision_id)]])
 
-    for a in adm:
-        wit = ['sup', sorted(a.items())]
-        nt = (desc.label, tuple(sorted(a.items())))
+    variants = [('same-objects', sup)]
+    try:
+        variants.append(('equal-nodes', build_sup(by_value=True)[0]))
+    except Exception as e:  # noqa
+        ctx.check('C20.complete-mapping-accepted', False, ['sup', 'build', 'equal-nodes'], f'{type(e).__name__}: {e}', (desc.label, 'build-bv'))
+    for how, sup_v, a in [(h_, s_, a_) for h_, s_ in variants for a_ in adm]:
+        wit = ['sup', sorted(a.items())] + ([how] if how != 'same-objects' else [])
+        nt = (desc.label, tuple(sorted(a.items())), how)
         nodes = specsem.closure(desc, a)
         try:
             final = resolve_src(a)
             if not (final.final and final.feasible):
                 continue
-            res = sup.resolve(final)
+            res = sup_v.resolve(final)
         except Exception as e:  # noqa
             ctx.check('C20.resolves', False, wit, f'{type(e).__name__}: {e}', nt)
             continue
